@@ -626,6 +626,10 @@ func (le *LangEnv) Get(name string) *Re {
 			le.Fold(strings.TrimPrefix(name, "FOLD_"))
 			return le.defs[name]
 		}
+		if name == "GO_SPACE_STAR" {
+			le.GoSpaceStar()
+			return le.defs[name]
+		}
 		if name == "HIGH_BYTES_PLUS" {
 			le.HighBytesPlus()
 			return le.defs[name]
@@ -669,6 +673,21 @@ func (le *LangEnv) NoByteStar(b byte) string {
 		var s byteSet
 		s.add(b)
 		le.Define(name, reStar(reSet(s.not())), fmt.Sprintf("(code) [^\\x%02x]*", b))
+	}
+	return name
+}
+
+// GoSpaceStar: sequences of runes for which unicode.IsSpace holds (UTF-8), derived from the unicode tables.
+func (le *LangEnv) GoSpaceStar() string {
+	name := "GO_SPACE_STAR"
+	if !le.Has(name) {
+		var alts []*Re
+		for r := rune(0); r <= unicode.MaxRune; r++ {
+			if unicode.IsSpace(r) {
+				alts = append(alts, reLit(string(r)))
+			}
+		}
+		le.Define(name, reStar(reAlt(alts...)), "(code) (runes with unicode.IsSpace)*")
 	}
 	return name
 }
